@@ -30,7 +30,19 @@ def tree_of(it, obj, default, used=False):
         return ("ext", obj.code, obj.data)
     if isinstance(obj, PObj) and obj.has_base and not isinstance(obj.base, Opaque) and type(obj.base).__name__ not in ("datetime",) and not hasattr(obj.base, "isoformat"):
         return tree_of(it, obj.base, default, used)  # strict_types=False: subclasses of int/str/bytes/list/float
-    if obj is None or isinstance(obj, (bool, float, str, bytes, SBool, SStr, SBytes, MPBytes)):
+    if isinstance(obj, str):
+        try:
+            obj.encode("utf-8", "surrogateescape")
+        except UnicodeEncodeError as e:
+            raise PyRaise(e)
+        return ("leaf", obj)
+    if isinstance(obj, SStr):
+        # packb(unicode_errors="surrogateescape"): every code point must be encodable, i.e. no surrogate other than an escaped byte U+DC80..U+DCFF
+        S_ = z3.ReSort(z3.StringSort())
+        ok = z3.Star(z3.Union(z3.Range(chr(0), chr(0xD7FF)), z3.Range(chr(0xDC80), chr(0xDCFF)), z3.Range(chr(0xE000), chr(0x2FFFF))))
+        it.require(z3.InRe(obj.t, ok), UnicodeEncodeError("utf-8", "<symbolic>", 0, 1, "surrogates not allowed"))
+        return ("leaf", obj)
+    if obj is None or isinstance(obj, (bool, float, bytes, SBool, SBytes, MPBytes)):
         return ("leaf", obj)
     if isinstance(obj, (int, SInt)):
         z = it.zint(obj)
